@@ -10,7 +10,7 @@ from __future__ import annotations
 import z3
 
 from pyvc.engine import Contract, Frame, LoopSpec, PURE
-from pyvc.values import ANY, BOOL, FUNC, INT, LIST, NONE, OPT, REF, fresh
+from pyvc.values import forall, ANY, BOOL, FUNC, INT, LIST, NONE, OPT, REF, fresh
 
 from .spec import (
     Disp, Inst, OBS_FIELDS, contains, derived, feasible,
@@ -189,12 +189,12 @@ def sched_wf(h, S):
     x = h.at(Sm(m), i)
     return [
         ("sched-outer", z3.And(S > 0, h.len(S) >= 0)),
-        ("sched-lists", z3.ForAll([m], imp(rng(m, 0, h.len(S)), z3.And(Sm(m) > 0, Sm(m) != S, h.len(Sm(m)) >= 0)),
+        ("sched-lists", forall([m], imp(rng(m, 0, h.len(S)), z3.And(Sm(m) > 0, Sm(m) != S, h.len(Sm(m)) >= 0)),
                                   patterns=[Sm(m)])),
-        ("sched-lists-distinct", z3.ForAll([m, m2], imp(z3.And(rng(m, 0, h.len(S)), rng(m2, 0, h.len(S)),
+        ("sched-lists-distinct", forall([m, m2], imp(z3.And(rng(m, 0, h.len(S)), rng(m2, 0, h.len(S)),
                                                                Sm(m) == Sm(m2)), m == m2),
                                            patterns=[z3.MultiPattern(Sm(m), Sm(m2))])),
-        ("sched-elements", z3.ForAll([m, i], imp(z3.And(rng(m, 0, h.len(S)), rng(i, 0, h.len(Sm(m)))),
+        ("sched-elements", forall([m, i], imp(z3.And(rng(m, 0, h.len(S)), rng(i, 0, h.len(Sm(m)))),
                                                  z3.And(x > 0, h.get("operation", x) > 0)),
                                      patterns=[h.at(Sm(m), i)])),
     ]
@@ -209,7 +209,7 @@ def sched_valid(h, S):
     m, i = fresh("m"), fresh("i")
     x = h.at(h.at(S, m), i)
     prev = h.at(h.at(S, m), i - 1)
-    return z3.ForAll([m, i], imp(z3.And(rng(m, 0, h.len(S)), rng(i, 0, h.len(h.at(S, m)))),
+    return forall([m, i], imp(z3.And(rng(m, 0, h.len(S)), rng(i, 0, h.len(h.at(S, m)))),
                                  z3.And(h.get("_machine_id", x) == m,
                                         imp(i > 0, so_end(h, prev) <= h.get("start_time", x)))),
                      patterns=[h.at(h.at(S, m), i)])
@@ -249,7 +249,7 @@ class ScheduleCheckSchedule(Contract):
         i = fresh("i")
         x = h.at(h.at(S, m), i)
         prev = h.at(h.at(S, m), i - 1)
-        return z3.ForAll([i], imp(rng(i, 0, upto),
+        return forall([i], imp(rng(i, 0, upto),
                                   z3.And(h.get("_machine_id", x) == m,
                                          imp(i > 0, so_end(h, prev) <= h.get("start_time", x)))),
                          patterns=[h.at(h.at(S, m), i)])
@@ -259,7 +259,7 @@ class ScheduleCheckSchedule(Contract):
         def outer(k):
             h, S = k.h0, k["schedule"]
             m = fresh("m")
-            return [("rows-before-ok", z3.ForAll([m], imp(rng(m, 0, k.i), self._row_ok(h, S, m, h.len(h.at(S, m))))))]
+            return [("rows-before-ok", forall([m], imp(rng(m, 0, k.i), self._row_ok(h, S, m, h.len(h.at(S, m))))))]
 
         def inner(k):
             h, S = k.h0, k["schedule"]
@@ -309,9 +309,9 @@ def fresh_empty_schedule(h0, h1, S1, M):
     Sm = lambda t: h1.at(S1, t)
     return [
         ("new-outer", z3.And(S1 >= h0.alloc, S1 < h1.alloc, h1.len(S1) == M)),
-        ("new-inner", z3.ForAll([m], imp(rng(m, 0, M), z3.And(Sm(m) >= h0.alloc, Sm(m) < h1.alloc, Sm(m) != S1,
+        ("new-inner", forall([m], imp(rng(m, 0, M), z3.And(Sm(m) >= h0.alloc, Sm(m) < h1.alloc, Sm(m) != S1,
                                                               h1.len(Sm(m)) == 0)), patterns=[Sm(m)])),
-        ("new-inner-distinct", z3.ForAll([m, m2], imp(z3.And(rng(m, 0, M), rng(m2, 0, M), Sm(m) == Sm(m2)),
+        ("new-inner-distinct", forall([m, m2], imp(z3.And(rng(m, 0, M), rng(m2, 0, M), Sm(m) == Sm(m2)),
                                                       m == m2), patterns=[z3.MultiPattern(Sm(m), Sm(m2))])),
     ]
 
@@ -400,7 +400,7 @@ class ScheduleMakespan(Contract):
         nonempty = lambda t: h.len(h.at(S, t)) > 0
         return z3.And(
             r >= 0,
-            z3.ForAll([m], imp(z3.And(rng(m, 0, upto), nonempty(m)), r >= last_end(m)), patterns=[h.at(S, m)]),
+            forall([m], imp(z3.And(rng(m, 0, upto), nonempty(m)), r >= last_end(m)), patterns=[h.at(S, m)]),
             z3.Or(r == 0, z3.Exists([m], z3.And(rng(m, 0, upto), nonempty(m), r == last_end(m)))))
 
     def ensures(self, c):
@@ -469,3 +469,424 @@ class ScheduleAdd(Contract):
         return [("appended", z3.And(h.len(lst) == n + 1,
                                     z3.Select(h.El, lst) == z3.Store(z3.Select(h0.El, lst), n,
                                                                      c["scheduled_operation"])))]
+
+
+# ---------------------------------------------------------------------------
+# Dispatcher
+# ---------------------------------------------------------------------------
+def same_list(h0, h1, l):
+    return z3.And(h1.len(l) == h0.len(l), z3.Select(h1.El, l) == z3.Select(h0.El, l),
+                  z3.Select(h1.ElX, l) == z3.Select(h0.ElX, l))
+
+
+def core_lists_kept(h0, h1, d, except_lists=()):
+    """prenexed statement that the lists the dispatcher owns and the lists of the
+    instance have the same length and content in h1 as in h0"""
+    D = Disp(h0, d)
+    born = h0.get("$born", d)
+    m, l = fresh("m"), fresh("l")
+    own = [x for x in (D.S, D.mnat, D.k, D.jnat, D.subs) if not any(x.eq(e) for e in except_lists)]
+    out = [same_list(h0, h1, x) for x in own]
+    ex = [e for e in except_lists]
+    out.append(forall([m], imp(z3.And(rng(m, 0, D.M), *[D.Sm(m) != e for e in ex]),
+                                  same_list(h0, h1, D.Sm(m))), patterns=[D.Sm(m)]))
+    out.append(forall([l], imp(z3.And(l > 0, l < born), same_list(h0, h1, l)),
+                         patterns=[z3.Select(h1.Len, l), z3.Select(h1.El, l)]))
+    return out
+
+
+def obs_frame(h=None, d=None):
+    """what an observer may write: its own fields and the observer region of list
+    memory (lists allocated by observer methods); nothing of the scheduling core"""
+    return Frame(fields={f: "ALL" for f in OBS_FIELDS}, olists="ALL")
+
+
+def last_dispatched(h, d, x):
+    D = Disp(h, d)
+    m = D.mid(x)
+    return z3.And(x > 0, rng(m, 0, D.M), D.nS(m) > 0, D.x(m, D.nS(m) - 1) == x)
+
+
+def empty_state(h, d):
+    D = Disp(h, d)
+    m, j = fresh("m"), fresh("j")
+    return [("no-operation-scheduled", forall([m], imp(rng(m, 0, D.M), z3.And(D.nS(m) == 0, D.mn(m) == 0)),
+                                                 patterns=[D.Sm(m)])),
+            ("machines-free-at-0", forall([m], imp(rng(m, 0, D.M), D.mn(m) == 0), patterns=[D.mn(m)])),
+            ("jobs-at-first-operation", forall([j], imp(rng(j, 0, D.it.J), z3.And(D.kj(j) == 0, D.jn(j) == 0)),
+                                                  patterns=[D.kj(j)])),
+            ("jobs-ready-at-0", forall([j], imp(rng(j, 0, D.it.J), D.jn(j) == 0), patterns=[D.jn(j)]))]
+
+
+@register
+class ObserverUpdate(Contract):
+    """Abstract contract every DispatcherObserver.update must honour (behavioural
+    subtyping; each built-in observer is checked against it).  Its pre-condition is what
+    C10 promises observers: the dispatcher is already in the post-dispatch state."""
+    name = "DispatcherObserver.update"
+    abstract = True
+    params = {"self": REF("DispatcherObserver"), "scheduled_operation": REF("ScheduledOperation")}
+    properties = ("C10",)
+
+    def requires(self, c):
+        h = c.h0
+        d = h.get("dispatcher", c["self"])
+        return [("observer", c["self"] > 0)] + reach(h, d) + \
+               [("sees-dispatched-operation-in-schedule", last_dispatched(h, d, c["scheduled_operation"]))]
+
+    def modifies(self, c):
+        return obs_frame()
+
+
+@register
+class ObserverReset(Contract):
+    name = "DispatcherObserver.reset"
+    abstract = True
+    params = {"self": REF("DispatcherObserver")}
+    properties = ("C10", "C12")
+
+    def requires(self, c):
+        h = c.h0
+        d = h.get("dispatcher", c["self"])
+        return [("observer", c["self"] > 0)] + reach(h, d) + empty_state(h, d)
+
+    def modifies(self, c):
+        return obs_frame()
+
+
+class _ListProp(Contract):
+    field = ""
+    ret = LIST(INT)
+    pure = True
+
+    def requires(self, c):
+        return [("self", c["self"] > 0)]
+
+    def ensures(self, c):
+        return [("value", c.result == c.h0.get(self.field, c["self"]))]
+
+
+@register
+class DispMNAT(_ListProp):
+    name = "Dispatcher.machine_next_available_time"
+    field = "_machine_next_available_time"
+
+
+@register
+class DispJNOI(_ListProp):
+    name = "Dispatcher.job_next_operation_index"
+    field = "_job_next_operation_index"
+
+
+@register
+class DispJNAT(_ListProp):
+    name = "Dispatcher.job_next_available_time"
+    field = "_job_next_available_time"
+
+
+@register
+class DispIsOperationReady(Contract):
+    name = "Dispatcher.is_operation_ready"
+    ret = BOOL
+    pure = True
+    properties = ("C01", "C09")
+
+    def requires(self, c):
+        h, d, o = c.h0, c["self"], c["operation"]
+        k = h.get("_job_next_operation_index", d)
+        return [("wf", z3.And(d > 0, o > 0, k > 0, rng(h.get("job_id", o), 0, h.len(k))))]
+
+    def ensures(self, c):
+        h, d, o = c.h0, c["self"], c["operation"]
+        k = h.get("_job_next_operation_index", d)
+        return [("next-of-its-job", c.result == (h.at(k, h.get("job_id", o)) == h.get("position_in_job", o)))]
+
+
+@register
+class DispStartTime(Contract):
+    name = "Dispatcher.start_time"
+    ret = INT
+    pure = True
+    properties = ("C01", "C02", "C06", "C07")
+
+    def requires(self, c):
+        h, d, o = c.h0, c["self"], c["operation"]
+        jn = h.get("_job_next_available_time", d)
+        mn = h.get("_machine_next_available_time", d)
+        return [("wf", z3.And(d > 0, o > 0, jn > 0, mn > 0, rng(h.get("job_id", o), 0, h.len(jn))))]
+
+    def _m(self, c):
+        h = c.h0
+        mn = h.get("_machine_next_available_time", c["self"])
+        m = c["machine_id"]
+        return z3.If(m < 0, m + h.len(mn), m), h.len(mn), mn
+
+    def raises(self, c):
+        mw, n, _ = self._m(c)
+        return [("IndexError", "machine-out-of-range", z3.Not(rng(mw, 0, n)))]
+
+    def ensures(self, c):
+        h, d, o = c.h0, c["self"], c["operation"]
+        mw, n, mn = self._m(c)
+        jn = h.get("_job_next_available_time", d)
+        return [("max-of-machine-free-and-job-ready",
+                 c.result == zmax(h.at(mn, mw), h.at(jn, h.get("job_id", o))))]
+
+
+@register
+class DispSubscribe(Contract):
+    name = "Dispatcher.subscribe"
+    properties = ("C10",)
+
+    def requires(self, c):
+        h, d = c.h0, c["self"]
+        return [("observer-of-this-dispatcher", z3.And(c["observer"] > 0, h.get("dispatcher", c["observer"]) == d))] \
+            + reach(h, d)
+
+    def modifies(self, c):
+        return Frame(lists=[c.h0.get("subscribers", c["self"])])
+
+    def ensures(self, c):
+        h0, h, d = c.h0, c.h, c["self"]
+        subs = h0.get("subscribers", d)
+        n = h0.len(subs)
+        return [("appended-last", z3.And(h.len(subs) == n + 1,
+                                         z3.Select(h.El, subs) == z3.Store(z3.Select(h0.El, subs), n, c["observer"])))] \
+            + reach(h, d)
+
+
+@register
+class DispUnsubscribe(Contract):
+    name = "Dispatcher.unsubscribe"
+    properties = ("C10",)
+
+    def requires(self, c):
+        return [("observer", c["observer"] > 0)] + reach(c.h0, c["self"])
+
+    def raises(self, c):
+        h = c.h0
+        return [("ValueError", "not-subscribed", z3.Not(contains(h, h.get("subscribers", c["self"]), c["observer"])))]
+
+    def modifies(self, c):
+        return Frame(lists=[c.h0.get("subscribers", c["self"])])
+
+    def ensures(self, c):
+        h0, h, d = c.h0, c.h, c["self"]
+        subs = h0.get("subscribers", d)
+        n = h0.len(subs)
+        w, q = fresh("w"), fresh("q")
+        first = z3.And(rng(w, 0, n), h0.at(subs, w) == c["observer"],
+                       forall([q], imp(rng(q, 0, w), h0.at(subs, q) != c["observer"])),
+                       forall([q], imp(rng(q, 0, n - 1),
+                                          h.at(subs, q) == z3.If(q < w, h0.at(subs, q), h0.at(subs, q + 1))),
+                                 patterns=[h.at(subs, q)]))
+        return [("first-occurrence-removed", z3.And(h.len(subs) == n - 1, z3.Exists([w], first)))] + reach(h, d)
+
+
+def _tracking_frame(h, d, extra_fields=None, extra_lists=(), alloc_objects=False):
+    D = Disp(h, d)
+    fields = {f: "ALL" for f in OBS_FIELDS}
+    fields["_cache"] = [d]
+    fields.update(extra_fields or {})
+    return Frame(fields=fields, lists=[D.mnat, D.k, D.jnat] + list(extra_lists), olists="ALL",
+                 alloc_objects=alloc_objects)
+
+
+@register
+class DispUpdateTracking(Contract):
+    name = "Dispatcher._update_tracking_attributes"
+    properties = ("C01", "C02", "C05", "C10")
+
+    def requires(self, c):
+        h, d, x = c.h0, c["self"], c["scheduled_operation"]
+        D = Disp(h, d)
+        o = D.opx(x)
+        pre = [("scheduled-operation-wf", z3.And(d > 0, x > 0, x < h.alloc, o > 0, D.mnat > 0, D.k > 0, D.jnat > 0,
+                                                 rng(D.mid(x), 0, h.len(D.mnat)), rng(D.it.jid(o), 0, h.len(D.k)),
+                                                 rng(D.it.jid(o), 0, h.len(D.jnat)))),
+               ("already-in-schedule", last_dispatched(h, d, x))]
+        # the state the three assignments produce is a Reach state: this is what lets
+        # the notification loop promise observers a consistent dispatcher (C10)
+        return pre + [("after-update:" + n, p) for n, p in reach(upd_tracking(h, d, x), d)]
+
+    def modifies(self, c):
+        return _tracking_frame(c.h0, c["self"])
+
+    def ensures(self, c):
+        h0, h, d, x = c.h0, c.h, c["self"], c["scheduled_operation"]
+        hu = upd_tracking(h0, d, x)
+        D = Disp(h0, d)
+        eq = [z3.And(h.len(l) == hu.len(l), z3.Select(h.El, l) == z3.Select(hu.El, l))
+              for l in (D.mnat, D.k, D.jnat)]
+        return [("tracking-vectors-updated", z3.And(eq)),
+                ("cache-cleared", h.get("_cache", d) >= h0.alloc)] + reach(h, d)
+
+    @property
+    def loops(self):
+        def inv(k):
+            d, x = k["self"], k["scheduled_operation"]
+            D = Disp(k.hl, d)
+            same = [same_list(k.hl, k.h, l) for l in (D.mnat, D.k, D.jnat, D.S, D.subs)]
+            return [("dispatcher-untouched-by-observers", z3.And(same)),
+                    ("still-last", last_dispatched(k.h, d, x))] + reach(k.h, d)
+
+        def mod(k):
+            return obs_frame()
+        return {0: LoopSpec("for subscriber in self.subscribers", inv, mod)}
+
+
+def _eff_machine(c):
+    """machine the request designates: the given id, or the operation's only machine"""
+    h = c.h0
+    mv = c.val("machine_id")
+    first = h.at(h.get("machines", c["operation"]), 0)
+    return z3.If(mv.aux, first, mv.t.t)
+
+
+@register
+class DispDispatch(Contract):
+    name = "Dispatcher.dispatch"
+    params = {"machine_id": OPT(INT)}
+    properties = ("C01", "C02", "C09", "C10")
+
+    def requires(self, c):
+        h, d, o = c.h0, c["self"], c["operation"]
+        D = Disp(h, d)
+        return [("operation-of-the-instance", D.it.is_op(o))] + reach(h, d)
+
+    def _cases(self, c):
+        h, d, o = c.h0, c["self"], c["operation"]
+        D = Disp(h, d)
+        mv = c.val("machine_id")
+        ready = D.kj(D.it.jid(o)) == D.it.pos(o)
+        given = z3.Not(mv.aux)
+        m = mv.t.t
+        several = D.it.nmach(o) > 1
+        in_range = z3.And(m >= -D.M, m < D.M)
+        eff = _eff_machine(c)
+        eligible = contains(h, D.it.machines(o), eff)
+        return ready, given, several, in_range, eligible
+
+    def raises(self, c):
+        ready, given, several, in_range, eligible = self._cases(c)
+        return [
+            ("ValidationError", "not-the-next-operation-of-its-job", z3.Not(ready)),
+            ("UninitializedAttributeError", "no-machine-given-for-flexible-operation",
+             z3.And(ready, z3.Not(given), several)),
+            ("IndexError", "machine-id-out-of-range", z3.And(ready, given, z3.Not(in_range))),
+            ("ValidationError", "machine-not-eligible",
+             z3.And(ready, z3.Or(z3.Not(given), in_range), z3.Not(z3.And(z3.Not(given), several)),
+                    z3.Not(eligible))),
+        ]
+
+    def modifies(self, c):
+        h, d, o = c.h0, c["self"], c["operation"]
+        D = Disp(h, d)
+        eff = _eff_machine(c)
+        return _tracking_frame(h, d, extra_fields={"$posm": [o], "$posi": [o]}, extra_lists=[D.Sm(eff)],
+                               alloc_objects=["operation", "start_time", "_machine_id", "$mq"])
+
+    def _ghost_place(self, c, st):
+        """ghost: record where the operation now sits in the schedule"""
+        h0, d, o = c.h0, c["self"], c["operation"]
+        D = Disp(h0, d)
+        eff = _eff_machine(c)
+        st.heap = st.heap.put("$posm", o, eff).put("$posi", o, D.nS(eff))
+        # ghost: which entry of the operation's machine list the chosen machine is (a
+        # definitional choice: the witness of the eligibility test that just passed)
+        x = st.env["scheduled_operation"].t
+        qw, q = fresh("mqw"), fresh("q")
+        ok = lambda t: z3.And(rng(t, 0, D.it.nmach(o)), D.it.mach(o, t) == eff)
+        st.assume(imp(z3.Exists([q], ok(q)), ok(qw)))
+        st.heap = st.heap.put("$mq", x, qw)
+
+    @property
+    def ghost_after(self):
+        return {"self.schedule.add(scheduled_operation)": self._ghost_place}
+
+    def ensures(self, c):
+        h0, h, d, o = c.h0, c.h, c["self"], c["operation"]
+        D0, D1 = Disp(h0, d), Disp(h, d)
+        m = _eff_machine(c)
+        j = D0.it.jid(o)
+        n = D0.nS(m)
+        x = D1.x(m, n)
+        q = fresh("q")
+        start = zmax(D0.mn(m), D0.jn(j))
+        return [
+            ("appended-on-chosen-machine", z3.And(
+                D1.nS(m) == n + 1, x >= h0.alloc, D1.opx(x) == o, D1.mid(x) == m,
+                forall([q], imp(rng(q, 0, n), D1.x(m, q) == D0.x(m, q)), patterns=[D1.x(m, q)]))),
+            ("forced-start-time", D1.start(x) == start),
+            ("same-list-objects", z3.And(D1.S == D0.S, D1.mnat == D0.mnat, D1.k == D0.k, D1.jnat == D0.jnat,
+                                         D1.subs == D0.subs, D1.sch == D0.sch, D1.I == D0.I)),
+            ("tracking-advanced", z3.And(
+                D1.mn(m) == start + D0.it.dur(o), D1.jn(j) == start + D0.it.dur(o), D1.kj(j) == D0.kj(j) + 1,
+                forall([q], imp(z3.And(rng(q, 0, D0.M), q != m), D1.mn(q) == D0.mn(q)), patterns=[D1.mn(q)]),
+                forall([q], imp(z3.And(rng(q, 0, D0.it.J), q != j),
+                                   z3.And(D1.kj(q) == D0.kj(q), D1.jn(q) == D0.jn(q))),
+                          patterns=[D1.kj(q)]))),
+            ("ghost-position", z3.And(D1.posm(o) == m, D1.posi(o) == n)),
+        ] + reach(h, d)
+
+
+@register
+class DispInit(Contract):
+    name = "Dispatcher.__init__"
+    properties = ("C01", "C02", "C12")
+
+    def requires(self, c):
+        h = c.h0
+        return [("self", c["self"] > 0)] + valid_instance(h, c["instance"])
+
+    def modifies(self, c):
+        s = c["self"]
+        names = ["instance", "schedule", "ready_operations_filter", "subscribers", "_machine_next_available_time",
+                 "_job_next_operation_index", "_job_next_available_time", "_cache", "$born"]
+        return Frame(fields={n: [s] for n in names}, allocates=True)
+
+    def ghost(self, c, st):
+        st.heap = st.heap.put("$born", c["self"], c.h0.alloc)
+
+    def ensures(self, c):
+        h0, h, d = c.h0, c.h, c["self"]
+        return [("instance-kept", h.get("instance", d) == c["instance"]),
+                ("filter-stored", h.get("ready_operations_filter", d) == c["ready_operations_filter"]),
+                ("no-subscribers", h.len(h.get("subscribers", d)) == 0),
+                ("born", h.get("$born", d) == h0.alloc)] + reach(h, d) + empty_state(h, d)
+
+
+@register
+class DispReset(Contract):
+    name = "Dispatcher.reset"
+    properties = ("C02", "C10", "C12")
+
+    def requires(self, c):
+        return reach(c.h0, c["self"])
+
+    def modifies(self, c):
+        h, d = c.h0, c["self"]
+        D = Disp(h, d)
+        names = ["_machine_next_available_time", "_job_next_operation_index", "_job_next_available_time", "_cache"]
+        fields = {n: [d] for n in names}
+        fields["_schedule"] = [D.sch]
+        fields.update({f: "ALL" for f in OBS_FIELDS})
+        return Frame(fields=fields, olists="ALL", alloc_lists=True)
+
+    def ensures(self, c):
+        h0, h, d = c.h0, c.h, c["self"]
+        D0, D1 = Disp(h0, d), Disp(h, d)
+        return [("same-objects", z3.And(D1.I == D0.I, D1.sch == D0.sch, D1.subs == D0.subs,
+                                        h.get("$born", d) == h0.get("$born", d)))] + reach(h, d) + empty_state(h, d)
+
+    @property
+    def loops(self):
+        def inv(k):
+            d = k["self"]
+            D = Disp(k.hl, d)
+            same = [same_list(k.hl, k.h, l) for l in (D.mnat, D.k, D.jnat, D.S, D.subs)]
+            return [("dispatcher-untouched-by-observers", z3.And(same))] + reach(k.h, d) + empty_state(k.h, d)
+
+        def mod(k):
+            return obs_frame()
+        return {0: LoopSpec("for subscriber in self.subscribers", inv, mod)}
